@@ -46,7 +46,13 @@ MutOps   == {"Insert", "Delete"}
 QueryOps == {"Search", "All", "Backward", "Min", "Max", "TopK", "BottomK", "Range",
              "Prefix", "Iter", "Dump", "Size"}
 EnvOps   == {"GC", "Scribble", "Arena", "Checkpoint", "Note"}
-KnownOps == MutOps \cup QueryOps \cup EnvOps \cup {"new", "clear", "reset"}
+KnownOps == MutOps \cup QueryOps \cup EnvOps \cup {"new", "clear", "reset", "Batch", "Pre"}
+
+(* ops: sequence of <<"I", k, v>> / <<"D", k, 0>> *)
+RECURSIVE FoldOps(_, _, _)
+FoldOps(mm, ops, i) ==
+  IF i > Len(ops) THEN mm
+  ELSE FoldOps(IF ops[i][1] = "I" THEN Ins(mm, ops[i][2], ops[i][3]) ELSE Del(mm, ops[i][2]), ops, i + 1)
 
 Snapshot(t) == [m |-> m[t], dg |-> dgs[t].dg, sg |-> dgs[t].sg]
 
@@ -88,6 +94,15 @@ TraceNext ==
             /\ dgs' = [dgs EXCEPT ![e.t].dg = e.dg, ![e.t].sg = e.sg]
             /\ pre' = Snapshot(e.t)
             /\ UNCHANGED <<uni, kd, base>>
+       [] e.op = "Batch" ->
+            \* read-only calls: the ghost state does not move
+            /\ pre' = Snapshot(e.t)
+            /\ UNCHANGED <<m, uni, kd, base, dgs>>
+       [] e.op = "Pre" ->
+            /\ m' = [m EXCEPT ![e.t] = FoldOps(@, e.ops, 1)]
+            /\ dgs' = [dgs EXCEPT ![e.t].dg = e.dg, ![e.t].sg = e.sg]
+            /\ pre' = Snapshot(e.t)
+            /\ UNCHANGED <<uni, kd, base>>
        [] e.op \in QueryOps ->
             /\ dgs' = [dgs EXCEPT ![e.t].dg = e.dg, ![e.t].sg = e.sg]
             /\ pre' = Snapshot(e.t)
@@ -104,120 +119,139 @@ TraceNext ==
 TraceSpec == TraceInit /\ [][TraceNext]_vars
 
 -----------------------------------------------------------------------------
-(* What the code reported in the line just consumed, and the ghost state *)
+(* What the code reported in the line just consumed, and the ghost state.   *)
+(* A "Batch" line carries a sequence of read-only calls made one after the  *)
+(* other on the unchanged tree; each item is judged exactly like a line of  *)
+(* its own.  A "Pre" line carries mutating calls whose individual results   *)
+(* are not re-examined (they are the prefix of a model transition test:     *)
+(* every prefix is itself the target of an earlier test); the ghost state   *)
+(* still follows the specification's meaning of those calls.                *)
 
 Started == l > 1
 Cur     == Trace[l - 1]
-HasTree == Started /\ Cur.op \in (MutOps \cup QueryOps)
-Ok      == HasTree /\ Cur.pan = ""          \* the call returned normally
+HasTree == Started /\ Cur.op \in (MutOps \cup QueryOps \cup {"Batch", "Pre"})
 M       == m[Cur.t]                         \* ghost map after the call
 PM      == pre.m                            \* ghost map before the call
 U       == uni[Cur.t]
 OTab    == [i \in 1..Len(U) |-> U[i].o]
+KD      == kd[Cur.t]
 
-IsOp(o) == Started /\ Cur.op = o
+Items == IF ~HasTree THEN <<>> ELSE IF Cur.op = "Batch" THEN Cur.items ELSE <<Cur>>
 
-(* a panic escaping a call of the given operations *)
-NoPanic(ops) == (Started /\ Cur.op \in ops) => Cur.pan = ""
+Good(e) == e.pan = ""                        \* the call returned normally
 
-KeysVals(ks) == Cur.keys = ks /\ Cur.vals = ValsOf(M, ks)
+(* every item of the line satisfies P *)
+Each(P(_)) == \A i \in 1..Len(Items) : P(Items[i])
+
+NoPanic(e, ops) == e.op \in ops => e.pan = ""
+
+KeysVals(e, ks) == e.keys = ks /\ e.vals = ValsOf(M, ks)
 
 -----------------------------------------------------------------------------
 (* C01 - exact map *)
-Inv_C01 ==
-  /\ NoPanic({"Insert", "Search", "Delete"})
-  /\ (Ok /\ Cur.op = "Search") =>
-        /\ Cur.found = SearchFound(M, Cur.k)
-        /\ Cur.found => Cur.val = SearchVal(M, Cur.k)
-  /\ (Ok /\ Cur.op = "Delete") => Cur.res = DeleteRes(PM, Cur.k)
+C01(e) ==
+  /\ NoPanic(e, {"Insert", "Search", "Delete"})
+  /\ (Good(e) /\ e.op = "Search") =>
+        /\ e.found = SearchFound(M, e.k)
+        /\ e.found => e.val = SearchVal(M, e.k)
+  /\ (Good(e) /\ e.op = "Delete") => e.res = DeleteRes(PM, e.k)
+Inv_C01 == Each(C01)
 
 (* C02 - iteration *)
-Inv_C02 ==
-  /\ NoPanic({"All", "Backward"})
-  /\ (Ok /\ Cur.op = "All") => KeysVals(AllKeys(M))
-  /\ (Ok /\ Cur.op = "Backward") => KeysVals(BackwardKeys(M))
+C02(e) ==
+  /\ NoPanic(e, {"All", "Backward"})
+  /\ (Good(e) /\ e.op = "All") => KeysVals(e, AllKeys(M))
+  /\ (Good(e) /\ e.op = "Backward") => KeysVals(e, BackwardKeys(M))
+Inv_C02 == Each(C02)
 
 (* C03 - Range; open = the end bound was the empty key of a byte-string tree *)
-Inv_C03 ==
-  /\ NoPanic({"Range"})
-  /\ (Ok /\ Cur.op = "Range" /\ kd[Cur.t] # "collation") =>
-        IF Cur.open THEN KeysVals(RangeOpenKeys(M, Cur.a))
-        ELSE KeysVals(RangeKeys(M, Cur.a, Cur.b))
+C03(e) ==
+  /\ NoPanic(e, {"Range"})
+  /\ (Good(e) /\ e.op = "Range" /\ KD # "collation") =>
+        IF e.open THEN KeysVals(e, RangeOpenKeys(M, e.a))
+        ELSE KeysVals(e, RangeKeys(M, e.a, e.b))
+Inv_C03 == Each(C03)
 
 (* C04 - Prefix *)
-Inv_C04 ==
-  /\ NoPanic({"Prefix"})
-  /\ (Ok /\ Cur.op = "Prefix") => KeysVals(PrefixKeys(M, OTab, Cur.p))
+C04(e) ==
+  /\ NoPanic(e, {"Prefix"})
+  /\ (Good(e) /\ e.op = "Prefix") => KeysVals(e, PrefixKeys(M, OTab, e.p))
+Inv_C04 == Each(C04)
 
 (* C05 - extremes, TopK, BottomK *)
-Inv_C05 ==
-  /\ NoPanic({"Min", "Max", "TopK", "BottomK"})
-  /\ (Ok /\ Cur.op = "Min") =>
-        /\ Cur.found = (Present(M) # {})
-        /\ Cur.found => (Cur.k = MinKey(M) /\ Cur.v = M[MinKey(M)])
-  /\ (Ok /\ Cur.op = "Max") =>
-        /\ Cur.found = (Present(M) # {})
-        /\ Cur.found => (Cur.k = MaxKey(M) /\ Cur.v = M[MaxKey(M)])
-  /\ (Ok /\ Cur.op = "BottomK") => KeysVals(BottomKKeys(M, Cur.n))
-  /\ (Ok /\ Cur.op = "TopK") => KeysVals(TopKKeys(M, Cur.n))
+C05(e) ==
+  /\ NoPanic(e, {"Min", "Max", "TopK", "BottomK"})
+  /\ (Good(e) /\ e.op = "Min") =>
+        /\ e.found = (Present(M) # {})
+        /\ e.found => (e.k = MinKey(M) /\ e.v = M[MinKey(M)])
+  /\ (Good(e) /\ e.op = "Max") =>
+        /\ e.found = (Present(M) # {})
+        /\ e.found => (e.k = MaxKey(M) /\ e.v = M[MaxKey(M)])
+  /\ (Good(e) /\ e.op = "BottomK") => KeysVals(e, BottomKKeys(M, e.n))
+  /\ (Good(e) /\ e.op = "TopK") => KeysVals(e, TopKKeys(M, e.n))
+Inv_C05 == Each(C05)
 
 (* C06 - Size after every operation; count of All() *)
-Inv_C06 ==
-  /\ Ok => Cur.sz = Size(M)
-  /\ (Ok /\ Cur.op = "All") => Len(Cur.keys) = Cur.sz
-  /\ (Ok /\ Cur.op = "Insert") => Cur.sz = Size(PM) + (IF Has(PM, Cur.k) THEN 0 ELSE 1)
-  /\ (Ok /\ Cur.op = "Delete") => Cur.sz = Size(PM) - (IF Cur.res THEN 1 ELSE 0)
+C06(e) ==
+  /\ Good(e) => e.sz = Size(M)
+  /\ (Good(e) /\ e.op = "All") => Len(e.keys) = e.sz
+  /\ (Good(e) /\ e.op = "Insert") => e.sz = Size(PM) + (IF Has(PM, e.k) THEN 0 ELSE 1)
+  /\ (Good(e) /\ e.op = "Delete") => e.sz = Size(PM) - (IF e.res THEN 1 ELSE 0)
+Inv_C06 == Each(C06)
 
 (* C11 - well-formed index, canonical shape; on every line carrying a dump *)
-HasDump == Ok /\ Cur.op \in {"Insert", "Delete", "Dump"} /\ Cur.hasd
-DumpOK(d) ==
-  LET ls == LeafSeq(d)
+DumpOK(e) ==
+  LET d  == e.dump
+      ls == LeafSeq(d)
   IN  /\ WF(d)
       /\ \A i \in 1..Len(ls) : ls[i].k \in 1..Len(U) /\ ls[i].tk = U[ls[i].k].t
       /\ {ls[i].k : i \in 1..Len(ls)} = Present(M)
       /\ Len(ls) = Cardinality(Present(M))
       /\ \A i \in 1..Len(ls) : ls[i].val = M[ls[i].k]
       /\ Shape(d) = Canon(LeafKeySet(d))
-      /\ Len(ls) = Cur.sz
-Inv_C11 == HasDump => DumpOK(Cur.dump)
+      /\ Len(ls) = e.sz
+C11(e) == (Good(e) /\ e.op \in {"Insert", "Delete", "Dump", "Pre"} /\ e.hasd) => DumpOK(e)
+Inv_C11 == Each(C11)
 
 (* C12 - a tree emptied by deletions is indistinguishable from a new one;   *)
 (* independence of trees is Inv_C01..C11 holding per tree under interleaving *)
-Inv_C12 ==
-  (Ok /\ Cur.op = "Delete" /\ Present(M) = {}) => Cur.dg = dgs[Cur.t].edg
+C12(e) == (Good(e) /\ e.op = "Delete" /\ Present(M) = {}) => e.dg = dgs[Cur.t].edg
+Inv_C12 == Each(C12)
 
 (* C13 - caller memory untouched by a call *)
-Inv_C13 == IsOp("Arena") => Cur.before = Cur.after
+Inv_C13 == (Started /\ Cur.op = "Arena") => Cur.before = Cur.after
 
 (* C14 - abandon and re-iterate *)
-FullKeys ==
-  CASE Cur.seq = "All"      -> AllKeys(M)
-    [] Cur.seq = "Backward" -> BackwardKeys(M)
-    [] Cur.seq = "TopK"     -> TopKKeys(M, Cur.n)
-    [] Cur.seq = "BottomK"  -> BottomKKeys(M, Cur.n)
-    [] Cur.seq = "Range"    -> IF Cur.open THEN RangeOpenKeys(M, Cur.a) ELSE RangeKeys(M, Cur.a, Cur.b)
-    [] Cur.seq = "Prefix"   -> PrefixKeys(M, OTab, Cur.p)
-Inv_C14 ==
-  /\ NoPanic({"Iter"})
-  /\ (Ok /\ Cur.op = "Iter") =>
-        /\ Cur.late = 0
-        /\ Len(Cur.passes) = Len(Cur.stops)
-        /\ \A i \in 1..Len(Cur.stops) :
-              /\ Cur.passes[i] = Pass(FullKeys, Cur.stops[i])
-              /\ Cur.pvals[i] = ValsOf(M, Cur.passes[i])
+FullKeys(e) ==
+  CASE e.seq = "All"      -> AllKeys(M)
+    [] e.seq = "Backward" -> BackwardKeys(M)
+    [] e.seq = "TopK"     -> TopKKeys(M, e.n)
+    [] e.seq = "BottomK"  -> BottomKKeys(M, e.n)
+    [] e.seq = "Range"    -> IF e.open THEN RangeOpenKeys(M, e.a) ELSE RangeKeys(M, e.a, e.b)
+    [] e.seq = "Prefix"   -> PrefixKeys(M, OTab, e.p)
+C14(e) ==
+  /\ NoPanic(e, {"Iter"})
+  /\ (Good(e) /\ e.op = "Iter") =>
+        /\ e.late = 0
+        /\ Len(e.passes) = Len(e.stops)
+        /\ \A i \in 1..Len(e.stops) :
+              /\ e.passes[i] = Pass(FullKeys(e), e.stops[i])
+              /\ e.pvals[i] = ValsOf(M, e.passes[i])
+Inv_C14 == Each(C14)
 
 (* C15 - queries and no-op updates leave the tree untouched *)
-Inv_C15 ==
-  /\ (Ok /\ Cur.op \in QueryOps) => Cur.dg = pre.dg
-  /\ (Ok /\ Cur.op = "Delete" /\ ~Has(PM, Cur.k)) => Cur.dg = pre.dg
-  /\ (Ok /\ Cur.op = "Insert" /\ Has(PM, Cur.k)) => Cur.sg = pre.sg
+C15(e) ==
+  /\ (Good(e) /\ e.op \in QueryOps) => e.dg = pre.dg
+  /\ (Good(e) /\ e.op = "Delete" /\ ~Has(PM, e.k)) => e.dg = pre.dg
+  /\ (Good(e) /\ e.op = "Insert" /\ Has(PM, e.k)) => e.sg = pre.sg
+Inv_C15 == Each(C15)
 
 (* C17 - retained memory: growth since the phase baseline stays under the   *)
-(* slack plus a bound proportional to the content                           *)
+(* slack plus a bound proportional to the growth of the content             *)
 Slack == 2097152
 PerByte == 64
 Inv_C17 ==
-  (IsOp("Checkpoint") /\ ~Cur.first) =>
+  (Started /\ Cur.op = "Checkpoint" /\ ~Cur.first) =>
      Cur.heap <= base[Cur.t] + Slack + PerByte * Cur.grown
 
 -----------------------------------------------------------------------------
